@@ -277,12 +277,16 @@ def hidden_fingerprint(objs):
     return tuple(out)
 
 
+_TABLES = None
+
+
 def _tables_fingerprint():
-    out = []
-    for owner, name, table in faults.module_dicts():
-        if isinstance(table, dict):
-            out.append((owner, name, repr(sorted(table.items(), key=repr))))
-    return tuple(out)
+    """Cheap: the sizes of the module-level tables (an entry appearing marks the window in
+    which a table is being filled; the plan widens the window on both sides)."""
+    global _TABLES
+    if _TABLES is None:
+        _TABLES = [t for _o, _n, t in faults.module_dicts() if isinstance(t, dict)]
+    return tuple(len(t) for t in _TABLES)
 
 
 def count_pass(case, mode="structural", cold=False):
@@ -338,9 +342,9 @@ def inject(case, k, mode, exc_name, ref, deep, k2=None, cold=False):
     faults.cache_drop()
     objs = build_case(case)
     vals = [model.value(o) for o in objs]
+    check_fresh = deep or mode == "tables"
     if cold:
         pan_before = ref["panel"]  # answers of never-touched operands, from the reference pass
-        deep = True
     else:
         pan_before = panel(objs)
         if pan_before != ref["panel"]:
@@ -421,6 +425,7 @@ def inject(case, k, mode, exc_name, ref, deep, k2=None, cold=False):
         elif exact and ref["answer"][0] in ("bool", "num", "raise") and a1[0] == ref["answer"][0]:
             if a1[2] != ref["answer"][2]:
                 return "VIOLATION", f"re-running the operation answers {a1[2]!r}, fault-free it answered {ref['answer'][2]!r}", site
+    if check_fresh:
         # 3. fresh objects unaffected (module tables)
         objs2 = build_case(case)
         if panel(objs2) != ref["panel"]:
@@ -451,12 +456,45 @@ def badarg_targets():
     ]
 
 
-def badarg_check():
+_FACTORY_IDS = {}
+
+
+def id_of(fn):
+    """Stable small number of a catalogue factory (its position among the factories)."""
+    if not _FACTORY_IDS:
+        n = 0
+        for _m, a, _k in faults.badarg_catalogue():
+            if callable(a):
+                _FACTORY_IDS[a.__code__.co_firstlineno] = n
+                n += 1
+    return _FACTORY_IDS.get(fn.__code__.co_firstlineno, -1)
+
+
+def badarg_check(jobs=1):
     """Every catalogue entry on every target: raise -> unchanged (bitwise, and the panel
-    answers as on a deep copy); accept -> counted."""
+    answers as before); accept -> counted."""
+    targets = badarg_targets()
+    if jobs <= 1:
+        parts = [_badarg_part(i) for i in range(len(targets))]
+    else:
+        ctx = multiprocessing.get_context("fork")
+        with ProcessPoolExecutor(max_workers=min(jobs, len(targets)), mp_context=ctx) as ex:
+            parts = list(ex.map(_badarg_part, range(len(targets))))
     res = {"tried": 0, "rejected": 0, "accepted": 0, "violations": []}
-    for tname, val in badarg_targets():
+    for part in parts:
+        for k in ("tried", "rejected", "accepted"):
+            res[k] += part[k]
+        res["violations"].extend(part["violations"])
+    return res
+
+
+def _badarg_part(ti):
+    res = {"tried": 0, "rejected": 0, "accepted": 0, "violations": []}
+    for tname, val in badarg_targets()[ti:ti + 1]:
         for method, args, kwargs in faults.badarg_catalogue():
+            label = repr(args) if not callable(args) else "<one-shot iterable #%d>" % id_of(args)
+            if callable(args):
+                args = args()
             obj = model.fresh(val)
             before = model.bits(obj)
             pan0 = panel([obj])
@@ -468,14 +506,14 @@ def badarg_check():
                 after = model.bits(obj)
                 if after != before:
                     res["violations"].append({
-                        "target": tname, "method": method, "args": repr(args), "kwargs": repr(kwargs),
-                        "details": f"{method}{args!r} raised {type(e).__name__} but the shape changed",
+                        "target": tname, "method": method, "args": label, "kwargs": repr(kwargs),
+                        "details": f"{method}{label} raised {type(e).__name__} but the shape changed",
                     })
                     continue
                 if panel([obj]) != pan0:
                     res["violations"].append({
-                        "target": tname, "method": method, "args": repr(args), "kwargs": repr(kwargs),
-                        "details": f"{method}{args!r} raised {type(e).__name__}; the shape answers differently afterwards",
+                        "target": tname, "method": method, "args": label, "kwargs": repr(kwargs),
+                        "details": f"{method}{label} raised {type(e).__name__}; the shape answers differently afterwards",
                     })
                 continue
             res["accepted"] += 1
@@ -612,18 +650,22 @@ def _worker_task(case, ks, mode, excs, deep_every):
     return out
 
 
-def _count_task(case):
+def _count_task(case, which):
+    """One reference pass of a case (run as separate tasks so that the four passes of an
+    expensive case proceed in parallel)."""
     faulthandler.dump_traceback_later(TASK_WALL, exit=True)
     try:
-        ref = count_pass(case, "structural")
-        allc = count_pass(case, "all")["count"]
-        coldp = count_pass(case, "structural-cold", cold=True)
+        if which == "structural":
+            ref = count_pass(case, "structural")
+            return {"structural": ref["count"], "dirty": ref["dirty"], "hidden": ref["hidden"],
+                    "answer_kind": ref["answer"][0]}
+        if which == "all":
+            return {"all": count_pass(case, "all")["count"]}
+        if which == "cold":
+            coldp = count_pass(case, "structural-cold", cold=True)
+            return {"cold": coldp["count"], "cold_hidden": coldp["hidden"]}
         tab = count_pass(case, "tables", cold=True)
-        tabc = tab["count"]
-        return {"structural": ref["count"], "all": allc, "tables": tabc, "tables_dirty": tab["dirty"],
-                "cold": coldp["count"], "cold_hidden": coldp["hidden"], "hidden": ref["hidden"],
-                "dirty": ref["dirty"],
-                "answer_kind": ref["answer"][0]}
+        return {"tables": tab["count"], "tables_dirty": tab["dirty"]}
     finally:
         faulthandler.cancel_dump_traceback_later()
 
@@ -643,13 +685,21 @@ def check(tier, seed, jobs):
     harness = []
     counts = {}
     with ProcessPoolExecutor(max_workers=jobs, mp_context=ctx) as ex:
-        futs = {ex.submit(_count_task, c): i for i, c in enumerate(cases)}
+        futs = {}
+        for i, c in enumerate(cases):
+            for which in (("all", "structural", "cold", "tables") if i < len(cat) else ("all", "structural")):
+                futs[ex.submit(_count_task, c, which)] = (i, which)
+        failed = set()
         for fut in as_completed(futs):
-            i = futs[fut]
+            i, which = futs[fut]
             try:
-                counts[i] = fut.result()
+                counts.setdefault(i, {}).update(fut.result())
             except Exception as e:  # noqa: BLE001
-                harness.append(f"count pass of {cases[i]['name']}: {type(e).__name__}: {e}")
+                failed.add(i)
+                harness.append(f"count pass ({which}) of {cases[i]['name']}: {type(e).__name__}: {e}")
+        for i in failed:
+            counts.pop(i, None)
+    t_counts = time.time() - t0
     # plan the crash points
     tasks = []
     plan = {}
@@ -669,7 +719,10 @@ def check(tier, seed, jobs):
                 else:
                     want = n
             else:
-                want = max(40, min(80, n // 16))
+                # quick: a budget of roughly a minute of CPU per case; one injection costs
+                # about all_events / 300k seconds
+                weight = max(1.0, counts[i]["all"] / 300000.0)
+                want = max(6, min(48, n // 16, int(90 / weight)))
             want = min(want, n)
             if want >= n:
                 ks = list(range(1, n + 1))
@@ -703,14 +756,16 @@ def check(tier, seed, jobs):
         # module-level memo table, with nothing asked of the operands beforehand
         ntab = counts[i].get("tables", 0)
         if ntab and is_cat:
-            want = ntab if tier == "thorough" else min(ntab, 24)
+            weight = max(1.0, counts[i]["all"] / 300000.0)
+            want = ntab if tier == "thorough" else max(3, min(ntab, 12, int(40 / weight)))
             tk = set(1 + ((seed + (j * ntab) // want) % ntab) for j in range(want))
             # the windows in which a table is being filled (its content changes): every event
             # from shortly before the change to just after it
             for ev in counts[i].get("tables_dirty", []):
                 lo = ev - (60 if tier == "thorough" else 24)
-                step_w = 1 if tier == "thorough" else 3
-                tk.update(e for e in range(max(1, lo), min(ntab, ev + 3) + 1, step_w))
+                hi = ev + (80 if tier == "thorough" else 40)
+                step_w = 1 if tier == "thorough" else (4 if weight < 4 else 10)
+                tk.update(e for e in range(max(1, lo), min(ntab, hi) + 1, step_w))
             tk = sorted(tk)
             plan[i]["table_events"] = ntab
             plan[i]["table_points"] = len(tk)
@@ -731,8 +786,10 @@ def check(tier, seed, jobs):
             want = min(ncold, 300 if tier == "thorough" else 10)
             ck.update(1 + ((seed * 13 + (j * ncold) // want) % ncold) for j in range(want))
             ck = sorted(e for e in ck if 1 <= e <= ncold)
-            if tier == "quick" and len(ck) > 60:
-                ck = sorted(rng.sample(ck, 60))
+            wcold = max(1.0, counts[i]["all"] / 300000.0)
+            cap = max(4, min(36, int(60 / wcold)))
+            if tier == "quick" and len(ck) > cap:
+                ck = sorted(rng.sample(ck, cap))
             plan[i]["cold_points"] = len(ck)
             plan[i]["hidden_state_writes"] = len(hw)
             for j in range(0, len(ck), 20):
@@ -773,10 +830,11 @@ def check(tier, seed, jobs):
                 v["case_index"] = i
                 violations.append(v)
             harness.extend(out["harness"])
-    bad = badarg_check()
+    t_inject = time.time() - t0 - t_counts
+    bad = badarg_check(jobs)
     # phase 3: interrupted calls inside seeded histories (operands keep history and caches,
     # the history continues afterwards under the frame invariant and the twins)
-    nhist = 320 if tier == "quick" else 9600
+    nhist = 160 if tier == "quick" else 9600
     hres, herr = M.run_batch("C11", seed, list(range(nhist)), jobs)
     harness.extend(herr)
     for r in hres:
@@ -789,6 +847,7 @@ def check(tier, seed, jobs):
             if k.startswith("fault:"):
                 hstats[k[6:]] = hstats.get(k[6:], 0) + v
     hist_fired = sum(v for k, v in hstats.items() if k.endswith("@k:fired"))
+    t_hist = time.time() - t0 - t_counts - t_inject
     violations.sort(key=lambda v: (v["case_index"], v["mode"], v["k"]))
     # known findings / reporting
     known = M.load_known()
@@ -847,6 +906,8 @@ def check(tier, seed, jobs):
             "badarg": {k: bad[k] for k in ("tried", "rejected", "accepted")},
             "histories_with_interrupts": {"runs": len(hres), "steps": sum(len(r["steps"]) for r in hres),
                                           "faults": hstats, "violating_runs": len(hviol)},
+            "phase_wall_s": {"cases_and_count_passes": round(t_counts, 1), "injections": round(t_inject, 1),
+                             "badarg_and_histories": round(t_hist, 1)},
             "injections_per_hour": round(totals["fired"] * 3600 / wall) if wall > 0 else 0,
             "violating_injections": len(violations), "unlisted": len(new_viol) + len(bad["violations"]) + len(hnew),
             "harness_errors": len(harness),
